@@ -1,6 +1,6 @@
 """C05: spec functions over the id -> routine map (`wrapper_map`) of the MATLAB wrapper.
 
-A *role* is the tuple (role name, class-or-function object, member, routine-name prefix) that a
+A *role* is the tuple (role name, class-or-function object, member, routine-name prefix, is-up-cast) that a
 call site in a generated .m file is meant for.  `c05_consistent(d, k, role)` says that the
 gateway `case k:` -- as generate_wrapper / mex_function lay it out from the map d -- runs the
 routine generated for exactly that role.
@@ -12,13 +12,13 @@ from pyvc.api import spec, implies
 def c05_consistent(d, k, role):
     if k in d and (k == 0 or (k - 1) in d):
         # normal id: its own entry
-        return (role[0] != 'upcast' and d[k][2] == role[0] and same(d[k][1], role[1])
+        return (not role[4] and d[k][2] == role[0] and same(d[k][1], role[1])
                 and same(d[k][4], role[2]) and d[k][3] == role[3] + '_' + int_str(k))
     if k in d:
         # id right after a reserved (unnamed) id: the up-cast routine of the class in entry k
-        return role[0] == 'upcast' and same(d[k][1], role[1])
+        return role[4] and same(d[k][1], role[1])
     # reserved id: served by the entry stored one above, whose routine name carries this id
-    return ((k + 1) in d and role[0] != 'upcast' and d[k + 1][2] == role[0] and same(d[k + 1][1], role[1])
+    return ((k + 1) in d and not role[4] and d[k + 1][2] == role[0] and same(d[k + 1][1], role[1])
             and same(d[k + 1][4], role[2]) and d[k + 1][3] == role[3] + '_' + int_str(k))
 
 
